@@ -278,7 +278,7 @@ func c16Configs(r *hx.Run) []svcCfg {
 	base := svcCfg{SKI: "aabbccddeeff00112233445566778899aabbccdd", Brand: "brand", Model: "model", Type: "type", Serial: "serial", ID: "id-1", Cats: []int{2}, Port: 4711}
 	var out []svcCfg
 	out = append(out, base)
-	alpha := []string{"a", "=", ";", ":", " ", "é", "€", "😀"}
+	alpha := []string{"a", "=", ";", ":", " ", "\u00a0", "é", "€", "😀"}
 	maxLen := 2
 	if r.Thorough() {
 		maxLen = 3
@@ -297,7 +297,7 @@ func c16Configs(r *hx.Run) []svcCfg {
 	gen("", 0)
 	// boundary family: a^k r a^j around the 32 byte limit
 	for k := 28; k <= 33; k++ {
-		for _, rn := range []string{"é", "€", "😀"} {
+		for _, rn := range []string{"é", "€", "😀", " "} {
 			for _, j := range []int{0, 1, 5} {
 				strs = append(strs, strings.Repeat("a", k)+rn+strings.Repeat("a", j))
 			}
